@@ -2,6 +2,8 @@ import Driver.Manager
 import Driver.Stream
 import Driver.Sym
 import Driver.Aead
+import Driver.Keyset
+import Driver.Wrap
 /-!
   `tvdrv`: one line in, one line out. The first token selects the model.
   Unknown or malformed lines answer `bad-op` (never a default).
@@ -11,6 +13,7 @@ open TinkVerif
 structure DState where
   mgr : Driver.Mgr.St := {}
   strm : Driver.Strm.St := {}
+  wrap : Driver.Wr.St := []
 
 def dispatch (st : DState) (line : String) : DState × String :=
   let toks := (line.trimAscii.toString.splitOn " ").filter (· ≠ "")
@@ -29,6 +32,14 @@ def dispatch (st : DState) (line : String) : DState × String :=
     | none => (st, "bad-op")
   | "A" :: rest =>
     match Driver.AeadD.handle rest with
+    | some out => (st, out)
+    | none => (st, "bad-op")
+  | "W" :: rest =>
+    match Driver.Wr.handle st.wrap rest with
+    | some (w, out) => ({ st with wrap := w }, out)
+    | none => (st, "bad-op")
+  | "K" :: rest =>
+    match Driver.Ks.handle rest with
     | some out => (st, out)
     | none => (st, "bad-op")
   | "X" :: rest =>
